@@ -20,10 +20,95 @@ CHECKS = {
             "All reachable states of the real cipher object under a menu of every seek position (7 integer types), every request length and current_pos inside three position windows are explored to a fixpoint; every transition is an implementation call compared with the position model, in release and overflow-checked builds.",
             "window restriction (positions near 0, 2^38 and 2^64 bytes); quick tier merges states that differ only in dead bytes of the block buffer (argument in DESIGN.md), thorough uses the exact key",
             True),
+    "C03": ("venum", "exploration", "complete enumeration of the 13-point backend/dispatch configuration lattice, differential against the reference models and across points",
+            "6/C03",
+            "The configuration lattice (6 std-dispatch points via hook H1, 5 no_std compile-time points, no_simd with/without std) is enumerated completely; in every point the same probe runs every dispatching algorithm on a bounded input set, compares with the reference models and the fingerprints of all points must be equal.",
+            "inputs per point are a bounded set (C01/C04/C06 go deeper on the default point); all backends are executed on this AVX2 host",
+            True),
+    "C04": ("venum", "exploration", "bounded-exhaustive enumeration of message lengths and bit positions against an independent BLAKE model",
+            "6/C04",
+            "Every message length over 5 (thorough 9) blocks in three byte patterns, every one-hot message at the padding-critical lengths and lengths 2^k-1..2^k+1 are hashed by all 4 variants and compared with a scalar model whose constants are derived from pi and square roots.",
+            "trusts vref::blake (self-tested against all four shipped KAT files incl. the 384/512 files the repository's tests skip)",
+            True),
+    "C05": ("venum", "exploration", "bounded-exhaustive enumeration over state size x output size x message length against an independent Skein/Threefish model",
+            "6/C05",
+            "3 state sizes x 25 output sizes (1..512 bytes, incl. non-multiples of 8 and several output blocks) x every message length over 3 (thorough 5) blocks, plus one-hot messages, compared with UBI over the model's own Threefish.",
+            "trusts vref::skein/threefish (self-tested against the 6 shipped KAT files and the Skein submission's Threefish vectors); output sizes are a list, not all N",
+            True),
+    "C06": ("venum", "exploration", "bounded-exhaustive enumeration: bit-sliced F8 vs nibble-oriented definition at every input bit position, plus digest length sweep",
+            "6/C06",
+            "F8 through the public Compressor is compared with the specification's nibble-oriented F8 for every one-hot bit of the 1024-bit state and of the 512-bit block (and more in thorough); digests of every length over 4 (8) blocks and long messages are compared with the model.",
+            "trusts vref::jh (generated round constants and IVs; self-tested against all 8 NIST KAT files)",
+            True),
+    "C07": ("venum", "exploration", "bounded-exhaustive enumeration of message lengths incl. block-counter byte boundaries against an independent byte-matrix Groestl model",
+            "6/C07",
+            "Every length over 4 (8) blocks in three patterns, one-hot messages at the padding-block boundary and lengths whose block count crosses 255/256 (thorough 65535/65536) for all 4 variants against a byte-matrix model with a generated S-box.",
+            "trusts vref::groestl (self-tested against the 4 shipped vector files)",
+            True),
+    "C08": ("vhist", "model_checking", "exhaustive enumeration of operation histories (update/clone/reset/finalize_reset/finalize, two live instances) executed on the real hashers",
+            "6/C08",
+            "Every valid history of 4 (thorough 5) operations over update with 8 block-relative lengths, clone, reset, finalize_reset, finalize with up to two live instances is executed from scratch for each of the 15 hashers; every digest is compared with the one-shot digest and with the reference model; plus every two-piece split.",
+            "stateless search (hashers have private state): no state merging, bound is the history depth",
+            True),
+    "C09": ("venum", "exploration", "bounded-exhaustive differential enumeration (every key/tweak/block bit) against an independent Threefish model, unrolled and no_unroll builds",
+            "6/C09",
+            "Every one-hot key, tweak and block bit, word-boundary values and the parity-word-zero key for all three sizes, in the default and the no_unroll build, against a round-loop model with on-the-fly subkeys.",
+            "trusts vref::threefish (Skein submission vectors); value alphabet",
+            True),
+    "C10": ("venum", "exploration", "bounded-exhaustive enumeration of both composition orders plus decrypt against the model",
+            "6/C10",
+            "On C09's domain: dec(enc(x)) = x, enc(dec(x)) = x and decrypt equals the model's inverse, so compensating errors are not accepted.",
+            "value alphabet as C09",
+            True),
     "C11": ("vhist", "model_checking", "explicit-state BFS over the real cipher object incl. start states after 2^64-k blocks; monitor for atomic exhaustion errors",
             "6/C11",
             "Same explorer as C02 with the end-of-keystream monitor: dense seeks and oversized requests around 2^38 bytes for IETF, start states just below 2^64 blocks for the 64-bit-counter types; Err must leave data and position untouched, requests ending exactly at the limit succeed, no block index is ever produced twice.",
             "states after 2^64-k blocks are entered through the public fields of the cipher (the invariant that makes them legitimate is stated in DESIGN.md)",
+            True),
+    "C12": ("venum", "exploration", "complete enumeration of (backend, vector type, operation) triples x declared operand alphabet, against scalar arithmetic; depth-2 closure of unary ops",
+            "6/C12",
+            "Every operation the Machine trait bounds require, on every vector type, on every backend instantiated directly (SSE2, SSSE3, SSE4.1/AVX, AVX2, generic), over an alphabet with every one-hot and one-cold word value in every word position, compared with u32/u64/u128 scalar arithmetic; every ordered pair of unary ops as well.",
+            "operand alphabet instead of all 2^512 values; the AVX machine shares its types with SSE4.1 (covered through dispatch in C03/C14)",
+            True),
+    "C13": ("venum", "exploration", "complete enumeration of (backend, vector type, data-movement operation) x every index x one-hot bit patterns against array semantics",
+            "6/C13",
+            "Round trips through storage, lanes, insert/extract at every index, transpose4, to_scalars, little-/big-endian byte loads and stores and the array views of the storage types for every backend and vector type on every one-hot bit.",
+            "values: fillers, 0, all-ones, byte-counting pattern and every one-hot bit",
+            True),
+    "C14": ("venum", "exploration", "bounded-exhaustive enumeration over counters at every carry position x double rounds 0..=10 x every backend, plus all refill/refill4 words up to length 4",
+            "6/C14",
+            "refill4 is compared with four refills (bytes and final state) and both with the block function for counters placing the 32-bit carry in each of the four lanes and within 13 of 2^64, for 0..=10 double rounds, on CPUID dispatch, every forced backend (hook H1) and the generic backend, in release and overflow-checked builds.",
+            "key / stream-id alphabet; hook H1 trusted to force the dispatch arm (its hit counters are asserted non-zero)",
+            True),
+    "C15": ("vhist", "model_checking", "explicit-state BFS over set/get/refill/refill4 on the real ChaCha state; complete single-bit and word-pair enumeration for the equality predicates",
+            "6/C15",
+            "BFS to depth 4 (5) over set_stream_param with 7 (11) boundary values per parameter, getters and both refills from three seeds; every step checks getter values, isolation, key words (== against a directly built twin) and output against the block function; the predicates are checked on every single-bit difference of all 12 stored words and every word pair.",
+            "parameter values are a boundary alphabet",
+            True),
+    "C16": ("venum", "exploration", "complete enumeration of placements (guard-page abutting, every alignment 0..63) x lengths x byte-slice APIs x backends on a PROT_NONE-guarded arena",
+            "6/C16",
+            "Every byte-slice API is run on slices abutting an unmapped page before and after and at every alignment 0..63, for every length 0..=130 and block-size boundaries; results must equal the heap run, bytes outside the slice must be unchanged, and the subprocess must survive.",
+            "an out-of-slice read that stays inside the mapped arena and does not change the result is invisible; this host's page size",
+            False),
+    "C17": ("vhist", "model_checking", "exhaustive enumeration of short update/finalize histories from fast-forwarded counter states around every word boundary (hook H2); real streaming across the first boundaries",
+            "6/C17",
+            "For every hasher and counter boundary, implementation and reference are set to the same counter value up to 4 blocks below the boundary and every history of up to 2 (3) updates + finalize is executed on both, in release and overflow-checked builds; Groestl is streamed for real through 2^8 and 2^16 blocks, and in the thorough tier BLAKE-224/256 and JH through 2^32 bits and Skein-512 through 2^32 bytes.",
+            "beyond the first boundary the state is fast-forwarded (counter overwritten on the initial chaining value); JH's 512 MiB prefix uses the public Compressor certified by C06",
+            True),
+    "C18": ("vsched", "model_checking", "exhaustive enumeration of all call-granularity interleavings of 3-4 threads in cold subprocesses under a baton scheduler, and of instance interleavings in one thread",
+            "6/C18",
+            "Every interleaving of the threads' calls (1680 / 2520 schedules per scenario, 6 scenarios) is executed in a fresh process with real OS threads under a baton scheduler, so each lazy global is first touched at every position by every thread, and again on a single thread; per-thread results must equal the reference model. A free-running supplement is labelled sampling.",
+            "switches only between API calls: pre-emption inside Once / CPUID caching / a compression is out of reach (DESIGN.md section 10)",
+            True),
+    "C19": ("venum", "exploration", "bounded-exhaustive enumeration of every public method x operand alphabet x all rotation amounts x all lane indices against wrapping scalar arithmetic, in two build profiles",
+            "6/C19",
+            "Every public method of the five ppv-null types over the one-hot/one-cold alphabet in every lane, every rotation amount 1..bits-1 and every lane index, compared with wrapping scalar arithmetic in release and overflow-checked builds.",
+            "operand alphabet",
+            True),
+    "C20": ("venum", "exploration", "complete enumeration of every package's feature lattice (every subset built), plus probe fingerprints across implementation-selecting feature sets",
+            "6/C20",
+            "Every subset of the declared features of each of the 9 packages is built with default features off; the probe of C03 is built with 8 (thorough: all 256) implementation-selecting feature sets and must give the reference fingerprint; Threefish no_unroll runs C09's domain.",
+            "stable toolchain and x86-64 target of this sandbox; one known finding (packed_simd) is listed in KNOWN_FINDINGS.txt",
             True),
 }
 
